@@ -66,12 +66,20 @@ Inductive rwentry := mkrwe (key : limbs) (ver : int) (parts : list rpart) (tag :
 Inductive rwire := mkrw (ver : int) (root : limbs) (n : int) (es : list rwentry) (safe : bool) (inlen : int).
 
 Inductive rtree := RTNone | RTSame | RTEmpty | RTLeaf (k v : limbs).
-Inductive bobs := BOErr | BOOk (root : limbs) (es : list (limbs * rentry)).
+(* MkValue(v).MtEntry() on the restored merklizer *)
+Inductive mkobs := MKOk (z : limbs) | MKErr | MKPanic.
+(* per-path observations on the restored merklizer, path built by mz.Options().NewPath:
+   Proof (error | existence flag, MtEntry of the returned Value) and JSONLDType *)
+Inductive pobs := mkpo (parts : list rpart) (proof_ok : bool) (ex : bool) (vh : option limbs) (dt : option string).
+Inductive bobs := BOErr | BOOk (root : limbs) (es : list (limbs * rentry)) (mk : list (raw_xval * mkobs)) (ps : list pobs).
 (* cfg: 0 = no WithHasher (package default), 1 = WithHasher(the configured hasher) *)
 (* tamper: the stream is re-encoded with one field changed before it is restored:
    0 nothing; 1 version 2; 2 declared count + 1; 3 declared count - 1; 4 declared count -1;
    5 declared count 2^40 *)
-Inductive rrestore := mkrr (cfg : int) (t : rtree) (tamper : int) (o : bobs).
+(* ep: the restore entry point: 0 MerklizerFromBytes(blob, options cfg/t); 1 zero-value
+   (&Merklizer{}).UnmarshalBinary(blob); 2 encoding/gob Decode into a Merklizer;
+   3 MerklizerFromBytes(blob) without options *)
+Inductive rrestore := mkrr (ep : int) (cfg : int) (t : rtree) (tamper : int) (o : bobs).
 (* receiver: 0 = zero RDFEntry, 1 = Options{Hasher: configured}.NewRDFEntry(NewPath(""), "") *)
 Inductive rsingle := mkrs (e : rentry) (recv : int) (o : option (rentry * rkv)).
 
@@ -137,11 +145,39 @@ Definition stored_agree (e : rdf_entry) (r : rentry) : bool :=
   let '(k, v, dt) := r in
   parts_eqb (p_parts (re_key e)) k && xval_eqb (re_val e) (xval_of v) && String.eqb (re_dt e) dt.
 
-Definition restore_agree (T : tparams) (r : res mzx) (o : bobs) : bool :=
+Definition restore_agree (T : tparams) (Hd : hasher) (r : res mzx) (o : bobs) : bool :=
   match r, o with
   | Err _, BOErr => true
-  | Ok x, BOOk root es =>
-      Z.eqb (mz_root T (x_mz x)) (z_of_limbs root)
+  | Ok x, BOOk root es mk ps =>
+      forallb (fun po : pobs =>
+                 match po with
+                 | mkpo parts pok e vh dt =>
+                     let m := x_mz x in
+                     let p := mz_new_path Hd m (map part_of parts) in
+                     (match mz_proof T Hd m p, pok with
+                      | Ok (pr, ov), true =>
+                          Bool.eqb (ex pr) e
+                          && match ov, vh with
+                             | Some v, Some l => match value_mt_entry v with Ok z => Z.eqb z (z_of_limbs l) | _ => false end
+                             | None, None => true
+                             | _, _ => false
+                             end
+                      | Err _, false => true
+                      | _, _ => false
+                      end)
+                     && match mz_jsonld_type Hd m p, dt with
+                        | Ok a, Some b => String.eqb a b
+                        | Err _, None => true
+                        | _, _ => false
+                        end
+                 end) ps &&
+      forallb (fun vo : raw_xval * mkobs =>
+                 match (y <- mz_mk_value (x_mz x) (xval_of (fst vo)) ;; value_mt_entry y), snd vo with
+                 | Ok z, MKOk l => Z.eqb z (z_of_limbs l)
+                 | Err _, MKErr => true
+                 | _, _ => false
+                 end) mk
+      && Z.eqb (mz_root T (x_mz x)) (z_of_limbs root)
       && Nat.eqb (List.length (mz_entries (x_mz x))) (List.length es)
       && forallb (fun ke : limbs * rentry =>
                     match assoc Z.eqb (z_of_limbs (fst ke)) (mz_entries (x_mz x)) with
@@ -188,7 +224,7 @@ Definition bcase_agree (q : Z) (c : bcase) : bool :=
                  | Ok w' =>
                      wire_agree w' w
                      && forallb (fun r => match r with
-                          | mkrr rc rt tc o =>
+                          | mkrr ep rc rt tc o =>
                               let cfg' := if Uint63.eqb rc 0%uint63 then None else Some Hc in
                               let t0 := match rt with
                                         | RTNone => None
@@ -196,7 +232,14 @@ Definition bcase_agree (q : Z) (c : bcase) : bool :=
                                         | RTEmpty => Some E
                                         | RTLeaf k v => Some (L (z_of_limbs k) (z_of_limbs v))
                                         end in
-                              restore_agree T (unmarshal T Hd (fun _ => true) cfg' t0 (iz inlen) (tamper_wire tc w')) o
+                              let wt := tamper_wire tc w' in
+                              let r : res (restored unit) :=
+                                let e := iz ep in
+                                if e =? 1 then unmarshal_zero T Hd (fun _ => true) (iz inlen) wt
+                                else if e =? 2 then gob_decode T Hd (fun _ => true) (iz inlen) wt
+                                else if e =? 3 then from_bytes T Hd (fun _ => true) (mkropts None None None) (iz inlen) wt
+                                else from_bytes T Hd (fun _ => true) (mkropts cfg' t0 None) (iz inlen) wt in
+                              restore_agree T Hd (x <- r ;; Ok (fst x)) o
                           end) rs
                  | _ => false
                  end
